@@ -24,7 +24,7 @@ def runOpsL (p : Program) : List Op → St → Except Err (List (OpOut × List K
     | .ok (vs, s1) =>
       match runOpsL p rest s1 with
       | .error e => .error e
-      | .ok (outs, s2) => .ok ((.round vs, s1.log) :: outs, s2)
+      | .ok (outs, s2) => .ok ((.round vs s1.log, s1.log) :: outs, s2)
 
 /-- clean shutdown, new engine on the same store -/
 def restart (s : St) : St := { s with log := [] }
@@ -55,7 +55,7 @@ def runP (p : Program) : List POp → St → Except Err (List (OpOut × List Key
     | .ok (vs, s1) =>
       match runP p rest s1 with
       | .error e => .error e
-      | .ok (outs, s2) => .ok ((.round vs, s1.log) :: outs, s2)
+      | .ok (outs, s2) => .ok ((.round vs s1.log, s1.log) :: outs, s2)
 
 /-- outputs only -/
 def outs {α β : Type} (r : Except Err (α × β)) : Except Err α :=
